@@ -247,6 +247,10 @@ enum Unit {
     /// the composite constructors if_nonzero_else, less_than,
     /// less_than_or_equal against their documented meaning
     Composite,
+    /// Tree::eq / Hash against the harness's own structural comparison on every
+    /// PAIR of a panel of trees (equal and different ones), and the Tree-only
+    /// API: pow, op-assign, From<i32>, Tree::deriv
+    TreeApi,
 }
 
 fn all_any() -> Vec<Result<U, B>> {
@@ -254,7 +258,7 @@ fn all_any() -> Vec<Result<U, B>> {
 }
 
 fn units(tier: Tier) -> Vec<Unit> {
-    let mut v = vec![Unit::Depth1, Unit::Deep, Unit::Composite];
+    let mut v = vec![Unit::Depth1, Unit::Deep, Unit::Composite, Unit::TreeApi];
     for u in refsem::UNARY {
         v.push(Unit::Depth2Unary(u));
     }
@@ -655,6 +659,212 @@ fn deep_unit(cx: &mut Cx, tier: Tier) {
     }
 }
 
+/// Panel of trees for the pairwise comparison: every depth-1 tree over the
+/// leaves, each built twice (separate allocations), plus remapped trees that
+/// differ in exactly one place (target, one substituted axis, one matrix entry)
+fn tree_panel(tier: Tier) -> Vec<(String, Tree)> {
+    let base = leaf_prog(tier);
+    let nl = base.nodes.len();
+    let mut out: Vec<(String, Tree)> = vec![];
+    for i in 0..nl {
+        let mut p = base.clone();
+        p.roots = vec![i];
+        out.push((p.describe(), prog_tree(&p)));
+    }
+    for_depth1(&base, nl, &mut |p| {
+        out.push((p.describe(), prog_tree(p)));
+        if let Some(t) = prog_tree_twin(p) {
+            out.push((format!("{} (zero / NaN constants of the other sign)", p.describe()), t));
+        }
+    });
+    let (x, y, z) = Tree::axes();
+    let targets = [x.clone() + y.clone() * 2.0, x.clone().min(z.clone())];
+    let subs = [x.clone(), y.clone(), z.clone() + 1.0, Tree::constant(0.0), Tree::constant(-0.0)];
+    for (ti, t) in targets.iter().enumerate() {
+        for (a, sa) in subs.iter().enumerate() {
+            for (b, sb) in subs.iter().enumerate() {
+                out.push((format!("remap_xyz(target {ti}, sub {a}, sub {b}, z)"), t.remap_xyz(sa.clone(), sb.clone(), z.clone())));
+                out.push((format!("remap_xyz(target {ti}, sub {a}, y, sub {b})"), t.remap_xyz(sa.clone(), y.clone(), sb.clone())));
+            }
+        }
+        // affine remaps: identity, and matrices differing in one entry, +0 / -0 / NaN entries
+        let mut mats = vec![nalgebra::Matrix4::<f32>::identity()];
+        // every one of the 12 free entries changed alone (two different values),
+        // then entries that differ only in the sign of zero / are NaN
+        for r in 0..3 {
+            for c in 0..4 {
+                for v in [0.5f32, 3.0] {
+                    let mut m = nalgebra::Matrix4::<f32>::identity();
+                    m[(r, c)] = v;
+                    mats.push(m);
+                }
+            }
+        }
+        for (r, c, v) in [(0, 1, -0.0f32), (1, 0, f32::NAN), (2, 3, -0.0), (0, 0, f32::NAN)] {
+            let mut m = nalgebra::Matrix4::<f32>::identity();
+            m[(r, c)] = v;
+            mats.push(m);
+        }
+        for (mi, m) in mats.iter().enumerate() {
+            let aff = nalgebra::Affine3::from_matrix_unchecked(*m);
+            out.push((format!("remap_affine(target {ti}, matrix {mi})"), t.remap_affine(aff)));
+        }
+    }
+    out
+}
+
+fn tree_api_unit(cx: &mut Cx, tier: Tier) {
+    use crate::treecmp::{first_difference, struct_eq};
+    let bh = std::collections::hash_map::RandomState::new();
+    let mut sub = 0u64;
+    // (a) pairwise: Tree::eq <=> structural identity; equal => same hash
+    let panel = tree_panel(tier);
+    let hashes: Vec<u64> = panel.iter().map(|(_, t)| hash_tree(t, &bh)).collect();
+    for (i, (da, a)) in panel.iter().enumerate() {
+        let s = sub;
+        sub += 1;
+        if !cx.case(s) {
+            continue;
+        }
+        cx.add("cases", 1);
+        cx.add("nontrivial", 1);
+        for (j, (db, b)) in panel.iter().enumerate() {
+            let want = struct_eq(a, b);
+            let got = match guard(|| a == b) {
+                Ok(g) => g,
+                Err(e) => {
+                    cx.violation(format!("Tree::eq panicked {}", panic_site(&e)), json!({"a": da, "b": db}), e);
+                    break;
+                }
+            };
+            cx.add("evals", 1);
+            cx.add("tree_pairs_compared", 1);
+            if want {
+                cx.add("tree_pairs_equal", 1);
+            }
+            if got != want {
+                cx.violation(
+                    if want { "Tree::eq says != for structurally identical trees" } else { "Tree::eq says == for structurally different trees" },
+                    json!({"a": da, "b": db}),
+                    format!("{:?} vs {:?}: Tree::eq = {got}, structural comparison: {:?}", &**a, &**b, first_difference(a, b)),
+                );
+                break;
+            }
+            if want && hashes[i] != hashes[j] {
+                cx.violation("trees that compare == hash differently", json!({"a": da, "b": db}), format!("{:x} vs {:x}", hashes[i], hashes[j]));
+                break;
+            }
+        }
+    }
+    // (b) Tree-only API against its meaning
+    let (x, y, _z) = Tree::axes();
+    let bases: Vec<(&str, Tree)> = vec![("x", x.clone()), ("x + y", x.clone() + y.clone()), ("2.5", Tree::constant(2.5)), ("x * 0.5", x.clone() * 0.5)];
+    let pts = [(0.5f32, 2.0f32), (-1.5, 0.25), (3.0, -2.0), (1.0, 1.0)];
+    let eval = |t: &Tree, px: f32, py: f32| -> f32 {
+        let mut ctx = Context::new();
+        let n = ctx.import(t);
+        let flat = Flat::from_ctx(&ctx, &[n]);
+        let args: Vec<f32> = flat.vars.iter().map(|v| if *v == var_by_index(0) { px } else { py }).collect();
+        let (mut vals, mut amb) = (vec![], vec![]);
+        flat.eval_all(&args, &mut vals, &mut amb);
+        vals[flat.roots[0]]
+    };
+    for (bn, b) in &bases {
+        for n in -6i64..=9 {
+            let s = sub;
+            sub += 1;
+            if !cx.case(s) {
+                continue;
+            }
+            cx.add("cases", 1);
+            cx.add("nontrivial", 1);
+            let desc = || json!({"tree": bn, "pow": n});
+            let t = match guard(|| b.pow(n)) {
+                Ok(t) => t,
+                Err(e) => {
+                    cx.violation(format!("Tree::pow panicked {}", panic_site(&e)), desc(), e);
+                    continue;
+                }
+            };
+            for (px, py) in pts {
+                let v = eval(b, px, py) as f64;
+                let want = v.powi(n as i32);
+                let got = eval(&t, px, py) as f64;
+                cx.add("evals", 1);
+                cx.add("value_comparisons", 1);
+                if !want.is_finite() || want.abs() > 1e30 {
+                    continue;
+                }
+                if (got - want).abs() > 1e-5 * want.abs().max(1e-30) {
+                    cx.violation("Tree::pow does not compute the integer power", desc(), format!("base value {v}: pow({n}) evaluates to {got}, expected {want}"));
+                    break;
+                }
+            }
+        }
+    }
+    // op-assign forms build the tree of the plain operator; From<i32>/<f32>/<f64>
+    let s = sub;
+    if cx.case(s) {
+        cx.add("cases", 1);
+        cx.add("nontrivial", 1);
+        let a = x.clone() * 2.0;
+        let b = y.clone() - 1.0;
+        let mut checks: Vec<(&str, Tree, Tree)> = vec![];
+        let mut t = a.clone();
+        t += b.clone();
+        checks.push(("+=", t, a.clone() + b.clone()));
+        let mut t = a.clone();
+        t -= b.clone();
+        checks.push(("-=", t, a.clone() - b.clone()));
+        let mut t = a.clone();
+        t *= b.clone();
+        checks.push(("*=", t, a.clone() * b.clone()));
+        let mut t = a.clone();
+        t /= b.clone();
+        checks.push(("/=", t, a.clone() / b.clone()));
+        let mut t = a.clone();
+        t -= 3.0f32;
+        checks.push(("-= number", t, a.clone() - 3.0));
+        let mut t = a.clone();
+        t /= 4.0f32;
+        checks.push(("/= number", t, a.clone() / 4.0));
+        checks.push(("From<i32>", Tree::from(3i32), Tree::constant(3.0)));
+        checks.push(("From<f32>", Tree::from(1.5f32), Tree::constant(1.5)));
+        checks.push(("number - tree", 3.0f32 - a.clone(), Tree::constant(3.0) - a.clone()));
+        checks.push(("number / tree", 3.0f32 / a.clone(), Tree::constant(3.0) / a.clone()));
+        for (name, got, want) in checks {
+            cx.add("evals", 1);
+            if let Some(d) = first_difference(&got, &want) {
+                cx.violation(format!("Tree API form `{name}` builds a different tree than the plain operator"), json!({"form": name}), format!("{d}: {:?} vs {:?}", &*got, &*want));
+            }
+        }
+        // Tree::deriv is the context's derivative of the imported tree
+        for (name, t) in [("x*x + y", x.clone() * x.clone() + y.clone()), ("sin(x*y)", (x.clone() * y.clone()).sin()), ("min(x, y*2)", x.clone().min(y.clone() * 2.0))] {
+            for v in [fidget_core::var::Var::X, fidget_core::var::Var::Y] {
+                let d = match guard(|| t.deriv(v)) {
+                    Ok(d) => d,
+                    Err(e) => {
+                        cx.violation(format!("Tree::deriv panicked {}", panic_site(&e)), json!({"tree": name}), e);
+                        continue;
+                    }
+                };
+                let mut ctx = Context::new();
+                let n = ctx.import(&t);
+                let dn = ctx.deriv(n, v).unwrap();
+                let want = ctx.export(dn).unwrap();
+                cx.add("evals", 1);
+                for (px, py) in pts {
+                    let (g, w) = (eval(&d, px, py), eval(&want, px, py));
+                    if !(g == w || (g.is_nan() && w.is_nan())) {
+                        cx.violation("Tree::deriv differs from Context::deriv of the imported tree", json!({"tree": name, "var": format!("{v:?}")}), format!("at ({px},{py}): {g} vs {w}"));
+                        break;
+                    }
+                }
+            }
+        }
+    }
+}
+
 impl Check for C12 {
     fn id(&self) -> &'static str {
         "C12"
@@ -667,14 +877,14 @@ impl Check for C12 {
     }
     fn meta(&self, tier: Tier) -> Meta {
         Meta {
-            rule: "case = expression tree; all trees of depth <= 2 (thorough: a family of depth-3 trees) over ALL 30 opcodes with leaves {x, y} and constants {0,-0,1,-1,2,NaN,3.7} (thorough: + 0.5, +-inf, 1e-40), including shared sub-trees (both operands the same node); each is built (a) through the public Context constructors and (b) as a Tree and imported; the graph the context holds is evaluated with ref32 at every point of an 11x11 grid (incl. +-0, 1e20, inf, NaN) and compared under == with the operation-by-operation evaluation of the un-rewritten expression whenever that stays finite throughout; the composite constructors if_nonzero_else / less_than / less_than_or_equal over all operand choices from {x, y, 0, -0, 1, -1, 2, 3.7} against their documented meaning on a 7x7 grid; the same program written in the flat text format and parsed by Context::from_text (root = last line) evaluated likewise; building twice gives the same node, import(export(n)) = n, separately built equal trees are == and hash equally, and so does the twin tree whose zero / NaN constants carry the other sign bit whenever the library calls it ==; chains, unary chains and balanced trees of 1e5 (thorough 1e6) nodes are built, compared, hashed, imported, exported and dropped on a 256 KiB stack; non-trivial = at least one point was compared".into(),
+            rule: "case = expression tree; all trees of depth <= 2 (thorough: a family of depth-3 trees) over ALL 30 opcodes with leaves {x, y} and constants {0,-0,1,-1,2,NaN,3.7} (thorough: + 0.5, +-inf, 1e-40), including shared sub-trees (both operands the same node); each is built (a) through the public Context constructors and (b) as a Tree and imported; the graph the context holds is evaluated with ref32 at every point of an 11x11 grid (incl. +-0, 1e20, inf, NaN) and compared under == with the operation-by-operation evaluation of the un-rewritten expression whenever that stays finite throughout; the composite constructors if_nonzero_else / less_than / less_than_or_equal over all operand choices from {x, y, 0, -0, 1, -1, 2, 3.7} against their documented meaning on a 7x7 grid; the same program written in the flat text format and parsed by Context::from_text (root = last line) evaluated likewise; building twice gives the same node, import(export(n)) = n, separately built equal trees are == and hash equally, and so does the twin tree whose zero / NaN constants carry the other sign bit whenever the library calls it ==; chains, unary chains and balanced trees of 1e5 (thorough 1e6) nodes are built, compared, hashed, imported, exported and dropped on a 256 KiB stack; Tree::eq is compared with the harness's own structural comparison (treecmp.rs) on EVERY PAIR of a panel of trees (all leaves and depth-1 trees, their other-sign-constant twins, axis remaps differing in one substituted tree, affine remaps differing in one matrix entry incl. -0 / NaN) - equal must be ==, different must be !=, == must hash alike; Tree::pow(n) for n in -6..=9 against powi, op-assign / From<number> / number-on-the-left forms against the plain operators, Tree::deriv against Context::deriv; non-trivial = at least one point was compared".into(),
             bounds: match tier {
                 Tier::Quick => "depth <= 2, 9 leaves".into(),
                 Tier::Thorough => "depth <= 2 with 13 leaves; depth 3 = outer(op(inner(l,l), l), l) family".into(),
             },
             assumptions: vec!["'finite throughout' is judged on the un-rewritten evaluation, leaves included".into()],
             crash_policy: CrashPolicy::Violation,
-            vacuity: vec![("value_comparisons", 100000), ("deep_tree_cases", 3)],
+            vacuity: vec![("value_comparisons", 100000), ("deep_tree_cases", 3), ("tree_pairs_equal", 1000), ("tree_pairs_compared", 100000)],
             transitions_counter: "evals",
             nontrivial_counter: "nontrivial",
             exhaustive: true,
@@ -688,6 +898,7 @@ impl Check for C12 {
         match units(tier)[unit].clone() {
             Unit::Deep => deep_unit(cx, tier),
             Unit::Composite => composite_unit(cx),
+            Unit::TreeApi => tree_api_unit(cx, tier),
             Unit::Depth1 => {
                 for_depth1(&base, nl, &mut |p| check_prog(cx, &mut sub, p, &pts));
             }
